@@ -144,6 +144,8 @@ func c09Goid() int64 {
 }
 
 type c09Thread struct {
+	fail     bool
+	result   int
 	release  chan struct{}
 	parked   chan string
 	done     chan struct{}
@@ -166,6 +168,12 @@ func (s *c09Sched) yield(point string) {
 	}
 	th.parked <- point
 	<-th.release
+}
+
+func (s *c09Sched) current() *c09Thread {
+	s.mu.Lock()
+	defer s.mu.Unlock()
+	return s.threads[c09Goid()]
 }
 
 func (s *c09Sched) spawn(body func(th *c09Thread)) *c09Thread {
@@ -339,6 +347,143 @@ func c09RunFwd(events [][]any) (res c09FwdResult) {
 	res.CloseInFlight = fake.closeInFlight.Load()
 	res.InFlight = int(entry.inFlight.Load())
 	res.Retired = entry.retired.Load()
+	return res
+}
+
+// ---------------------------------------------------------------------------------------------
+// kind "fcache": the forwarder cache of DnsController (getOrCreate / use / retire-by-key / retireAll / closeAll)
+// ---------------------------------------------------------------------------------------------
+
+type c09Inst struct {
+	id     int
+	sched  *c09Sched
+	inUse  atomic.Int32
+	closes atomic.Int32
+	cif    atomic.Bool
+}
+
+func (f *c09Inst) ForwardDNS(ctx context.Context, data []byte) (*dnsmessage.Msg, error) {
+	f.inUse.Add(1)
+	if f.closes.Load() > 0 {
+		f.cif.Store(true)
+	}
+	verifYield("fcache.using")
+	f.inUse.Add(-1)
+	if th := f.sched.current(); th != nil && th.fail {
+		return nil, fmt.Errorf("c09: scripted upstream failure")
+	}
+	return c09Build(c09Msg{ID: 1, QName: "x.", QType: 1}), nil
+}
+
+func (f *c09Inst) Close() error {
+	f.closes.Add(1)
+	if f.inUse.Load() > 0 {
+		f.cif.Store(true)
+	}
+	return nil
+}
+
+type c09FcacheResult struct {
+	Kind      string   `json:"kind"`
+	Effective [][]any  `json:"effective"`
+	Trace     []string `json:"trace"`
+	Results   []int    `json:"results"`   // per query: 0 answered, 1 forward error, 2 retired before start
+	Closes    []int    `json:"closes"`    // per instance, in creation order
+	Cif       []bool   `json:"cif"`       // per instance: closed while a query was inside it / used after close
+	Cached    int      `json:"cached"`    // entries left in dnsForwarderCache after closeAll
+	Panic     string   `json:"panic,omitempty"`
+}
+
+func c09RunFcache(events [][]any) (res c09FcacheResult) {
+	res.Kind = "fcache"
+	defer func() {
+		if r := recover(); r != nil {
+			res.Panic = fmt.Sprint(r)
+		}
+	}()
+	sched := &c09Sched{threads: map[int64]*c09Thread{}}
+	// the atomic operations inside beginUse/endUse/retire are not scheduling points of this family
+	VerifYield = func(point string) {
+		if strings.HasPrefix(point, "fwd.") {
+			return
+		}
+		sched.yield(point)
+	}
+	defer func() { VerifYield = nil }()
+	log := logrus.New()
+	log.SetOutput(io.Discard)
+	var imu sync.Mutex
+	var insts []*c09Inst
+	original := dnsForwarderFactory
+	defer func() { dnsForwarderFactory = original }()
+	dnsForwarderFactory = func(upstream *componentdns.Upstream, dialArg dialArgument, _ *logrus.Logger) (DnsForwarder, error) {
+		verifYield("fcache.factory")
+		imu.Lock()
+		defer imu.Unlock()
+		in := &c09Inst{id: len(insts), sched: sched}
+		insts = append(insts, in)
+		return in, nil
+	}
+	ctrl, err := NewDnsController(nil, &DnsControllerOption{Log: log, LifecycleContext: context.Background(),
+		TimeoutExceedCallback: func(*dialArgument, error) {}})
+	if err != nil {
+		panic(err)
+	}
+	defer ctrl.Close()
+	upstream := &componentdns.Upstream{Scheme: componentdns.UpstreamScheme_UDP, Hostname: "198.51.100.53", Port: 53}
+	dialArg := &dialArgument{l4proto: consts.L4ProtoStr_UDP, ipversion: consts.IpVersionStr_4, bestTarget: netip.MustParseAddrPort("198.51.100.53:53")}
+	data, _ := c09Query(7, "x.", 1).Pack()
+	var qs []*c09Thread
+	stepQ := func(t int) {
+		if t < 0 || t >= len(qs) {
+			return
+		}
+		sched.step(qs[t])
+		res.Effective = append(res.Effective, []any{"q", t})
+		res.Trace = append(res.Trace, qs[t].at)
+	}
+	for _, e := range events {
+		kind, _ := e[0].(string)
+		switch kind {
+		case "s":
+			fail, _ := e[1].(bool)
+			th := sched.spawn(func(th *c09Thread) {
+				_, err := ctrl.forwardWithDialArg(context.Background(), upstream, dialArg, data)
+				switch {
+				case err == nil:
+					th.result = 0
+				case strings.Contains(err.Error(), "retired before request could start"):
+					th.result = 2
+				default:
+					th.result = 1
+				}
+			})
+			th.fail = fail
+			qs = append(qs, th)
+			res.Effective = append(res.Effective, []any{"s", fail})
+		case "q":
+			idx, _ := e[1].(float64)
+			stepQ(int(idx))
+		case "reload":
+			_ = ctrl.retireAllDnsForwarders()
+			res.Effective = append(res.Effective, []any{"reload"})
+		}
+	}
+	for t, th := range qs {
+		for !th.finished {
+			stepQ(t)
+		}
+	}
+	_ = ctrl.closeAllDnsForwarders()
+	res.Effective = append(res.Effective, []any{"closeall"})
+	for _, th := range qs {
+		res.Results = append(res.Results, th.result)
+	}
+	for _, in := range insts {
+		res.Closes = append(res.Closes, int(in.closes.Load()))
+		res.Cif = append(res.Cif, in.cif.Load())
+	}
+	ctrl.dnsForwarderCache.Range(func(k, v any) bool { res.Cached++; return true })
 	return res
 }
 
@@ -1101,6 +1246,10 @@ func TestVerifC09(t *testing.T) {
 			var ev [][]any
 			_ = json.Unmarshal(head.Events, &ev)
 			return c09RunFwd(ev)
+		case "fcache":
+			var ev [][]any
+			_ = json.Unmarshal(head.Events, &ev)
+			return c09RunFcache(ev)
 		case "pipe":
 			var ev []c09PipeEvent
 			_ = json.Unmarshal(head.Events, &ev)
